@@ -78,6 +78,7 @@ fn install_hook(out_dir: &str) {
                 }
             }
             println!("VIOLATION-CONTEXT\tfamily={}\tcurrent-ops={}", p.family, ctx);
+            println!("VIOLATION-FAMILIES\t{}", context::fams_text(context::current_fams()));
             if !g.out_dir.is_empty() {
                 let path = format!("{}/viol-{}-{}.replay", g.out_dir, p.profile, p.seed);
                 let mut text = p.to_text();
